@@ -1,5 +1,5 @@
 (* Property C01 - create counts every complete site once at its per-population ALT index. *)
-From Sfs Require Import Index ArrayM Scalar Spectrum Project Create IndexP ArrayP BinomP ProjectP CreateP CreateSpecP.
+From Sfs Require Import Index ArrayM Scalar Spectrum Project Create SampleParse IndexP ArrayP BinomP ProjectP CreateP CreateSpecP SampleParseP.
 From Coq Require Import Permutation.
 
 Close Scope Qc_scope. Close Scope Q_scope. Open Scope nat_scope.
